@@ -1861,41 +1861,45 @@ struct Value {
             const Value         *item_   = array_.First();
             const Char_T        *str     = nullptr;
             SizeT                str_len = 0;
-            SizeT                grouped_key_index;
 
             groupedValue.reset();
             groupedValue.setTypeToObject();
 
-            if ((item_ != nullptr) && item_->isObject() && item_->object_.GetKeyIndex(grouped_key_index, key, length)) {
+            if ((item_ != nullptr) && item_->isObject() && item_->object_.Has(key, length)) {
                 const Value *end = array_.End();
 
                 while (item_ != end) {
                     if ((item_ != nullptr) && item_->isObject()) {
-                        SizeT count = 0;
+                        bool has_key = false;
 
                         const VItem *obj_item = item_->object_.First();
                         const VItem *obj_end  = item_->object_.End();
 
                         while (obj_item != obj_end) {
-                            if ((obj_item != nullptr) && !(obj_item->Value.isUndefined())) {
-                                if (count != grouped_key_index) {
+                            // Removed and undefined members are skipped; the key is found by name, wherever it sits.
+                            if (!(obj_item->Value.isUndefined())) {
+                                if (!(obj_item->Key.IsEqual(key, length))) {
                                     new_sub_obj[obj_item->Key] = obj_item->Value;
-                                } else if (!(obj_item->Value.SetCharAndLength(str, str_len))) {
-                                    stream.Clear();
+                                } else {
+                                    has_key = true;
 
-                                    if (obj_item->Value.CopyValueTo(stream)) {
-                                        str     = stream.First();
-                                        str_len = stream.Length();
-                                    } else {
-                                        return false;
+                                    if (!(obj_item->Value.SetCharAndLength(str, str_len))) {
+                                        stream.Clear();
+
+                                        if (obj_item->Value.CopyValueTo(stream)) {
+                                            str     = stream.First();
+                                            str_len = stream.Length();
+                                        } else {
+                                            return false;
+                                        }
                                     }
                                 }
-
-                                ++count;
-                                ++obj_item;
-                                continue;
                             }
 
+                            ++obj_item;
+                        }
+
+                        if (!has_key) {
                             return false;
                         }
 
